@@ -81,6 +81,25 @@ fn main() {
             check_lax_unit(&many[(i / nm) as usize], loc);
         }
     }));
+    // every list of up to 3 (thorough: 4) pending pairs on three equally labelled nodes, as the right and as the left
+    // operand of four small diagrams, and the unit laws: the columns of the pending lists are shifted entry by entry
+    let qs = Spec { n_min: 3, n_max: 3, e_min: 0, e_max: 0, ks: 0, kt: 0, lw: 1, lx: 1, a: 0, b: 0, q: if quick { 3 } else { 4 } };
+    let qu = qs.universe();
+    let small: Vec<ohmc_core::plain::PLax<u8, u8>> = vec![
+        ohmc_core::plain::PLax::strict(ohmc_core::plain::POpen::empty()),
+        ohmc_core::plain::PLax { open: ohmc_core::plain::POpen { nodes: vec![0], edges: vec![], s: vec![0], t: vec![] }, quot: vec![] },
+        ohmc_core::plain::PLax { open: ohmc_core::plain::POpen { nodes: vec![0, 0], edges: vec![], s: vec![], t: vec![1] }, quot: vec![(1, 0)] },
+        ohmc_core::plain::PLax { open: ohmc_core::plain::POpen { nodes: vec![0, 0, 0], edges: vec![], s: vec![], t: vec![] }, quot: vec![(0, 2), (0, 2), (1, 2)] },
+    ];
+    ctx.run_slice(Slice::new(format!("lax-pending-lists[{} x 4 small diagrams, both orders]", qs.name()), qu.count(), |i, loc| {
+        let g = qu.get(i);
+        for f in &small {
+            loc.more_cases(2);
+            check_lax_pair(f, &g, loc);
+            check_lax_pair(&g, f, loc);
+        }
+        check_lax_unit(&g, loc);
+    }));
     let meta = Meta {
         rule: "all pairs / triples / single diagrams of the listed universes (strict, and lax with pending unification pairs); exact comparison of the decoded result (plus deep well-formedness of every raw field) with the juxtaposition computed on the plain model; non-trivial = both operands non-empty and the right operand has something to shift".into(),
         bounds: "strict pairs: <=2 nodes, <=1 edge, arity <=2, 2+2 labels, interfaces <=1 (quick) / <=2 (thorough); unit: <=3 nodes, <=2 edges; triples: <=2 nodes, <=1 edge of arity <=1; lax: same with <=1-2 pending pairs".into(),
